@@ -71,7 +71,13 @@ const (
 	// with the histogram bucket bound values.
 	DefaultHistogramBucketTagPrecision = uint(6)
 
-	_emitMetricBatchOverhead    = 19
+	// _emitMetricBatchOverhead is what a datagram needs on top of the
+	// serialized (empty) batch with the common tags and the serialized
+	// metrics: the message header, the arguments struct and the growth of
+	// the metric list header. The Binary protocol needs exactly 33 bytes,
+	// the Compact protocol at most 32 (23 plus up to 4 more bytes of
+	// sequence id and up to 5 more bytes of list header).
+	_emitMetricBatchOverhead    = 33
 	_minMetricBucketIDTagLength = 4
 	_timeResolution             = 100 * time.Millisecond
 )
@@ -405,11 +411,9 @@ func (r *reporter) AllocateHistogram(
 				durationUpperBound: pair.UpperBoundDuration(),
 				metric:             &counter,
 			}
-			delta = len(r.bucketIDTagName) + len(r.bucketTagName) + len(hbucket.bucketID)
 		)
 
 		hbucket.metric.metric.Tags = mtags
-		hbucket.metric.size = r.calculateSize(hbucket.metric.metric)
 
 		if isDuration {
 			bname := r.stringInterner.Intern(
@@ -417,7 +421,7 @@ func (r *reporter) AllocateHistogram(
 					r.durationBucketString(pair.UpperBoundDuration()),
 			)
 			hbucket.bucket = bname
-			hbucket.metric.size += int32(delta + len(bname))
+			hbucket.metric.size = r.calculateBucketSize(hbucket)
 			cachedDurationBuckets = append(cachedDurationBuckets, hbucket)
 		} else {
 			bname := r.stringInterner.Intern(
@@ -425,7 +429,7 @@ func (r *reporter) AllocateHistogram(
 					r.valueBucketString(pair.UpperBoundValue()),
 			)
 			hbucket.bucket = bname
-			hbucket.metric.size += int32(delta + len(bname))
+			hbucket.metric.size = r.calculateBucketSize(hbucket)
 			cachedValueBuckets = append(cachedValueBuckets, hbucket)
 		}
 
@@ -501,6 +505,20 @@ func (r *reporter) calculateSize(m m3thrift.Metric) int32 {
 	r.calc.ResetCount()
 	r.calcLock.Unlock()
 	return size
+}
+
+// calculateBucketSize measures a histogram bucket's metric the way process()
+// sends it: with the bucket id and bucket tags appended to its own tags.
+func (r *reporter) calculateBucketSize(b cachedHistogramBucket) int32 {
+	m := b.metric.metric
+	tags := make([]m3thrift.MetricTag, 0, len(m.Tags)+2)
+	tags = append(tags, m.Tags...)
+	m.Tags = append(
+		tags,
+		m3thrift.MetricTag{Name: r.bucketIDTagName, Value: b.bucketID},
+		m3thrift.MetricTag{Name: r.bucketTagName, Value: b.bucket},
+	)
+	return r.calculateSize(m)
 }
 
 func (r *reporter) reportCopyMetric(
